@@ -335,6 +335,7 @@ func main() {
 	}
 	if *scenario {
 		runScenario(d, dAddr, cfg, fail)
+		concurrentDelivery(d, dAddr, cfg, fail)
 	}
 }
 
@@ -518,5 +519,102 @@ func runScenario(d *scripted, dAddr string, cfg *pb.Config, fail func(clause, si
 	step("restore_without_data")
 	if info(C) != nil {
 		fail("instantiate_table", "restore-without-data", "a restore request for a replica without data started a replica", nil)
+	}
+}
+
+// concurrentDelivery: a batch arrives (reply to a report) while the previous batch is still being executed by
+// HandleMasterRequests in another goroutine, as reporter and executor do in the real NodeHost process. The batch in
+// flight must be executed completely and in order, the new one exactly once afterwards.
+func concurrentDelivery(d *scripted, dAddr string, cfg *pb.Config, fail func(clause, sig, what string, ops interface{})) {
+	h := newHost()
+	defer h.stop()
+	const s1, s2, s3 = 9001, 9002, 9003
+	set := func(reqs ...*pb.NodeHostRequest) {
+		d.mu.Lock()
+		d.replies[h.Addr] = reqs
+		d.mu.Unlock()
+	}
+	report := func() bool {
+		nhi := h.NH.GetNodeHostInfo(dragonboat.DefaultNodeHostInfoOption)
+		nhi.LogInfo = nil
+		return h.dc.SendNodeHostInfo(ctx(), dAddr, *nhi, "api", false) == nil
+	}
+	info := func(sid uint64) *dragonboat.ShardInfo {
+		for _, ci := range h.NH.GetNodeHostInfo(dragonboat.DefaultNodeHostInfoOption).ShardInfoList {
+			if ci.ShardID == sid {
+				c := ci
+				return &c
+			}
+		}
+		return nil
+	}
+	wait := func(cond func() bool) bool {
+		for i := 0; i < 400; i++ {
+			if cond() {
+				return true
+			}
+			time.Sleep(25 * time.Millisecond)
+		}
+		return false
+	}
+	create := func(sid uint64) *pb.NodeHostRequest {
+		return &pb.NodeHostRequest{Change: &pb.Request{Type: pb.Request_CREATE, ShardId: sid, Members: []uint64{1}}, ReplicaIdList: []uint64{1},
+			AddressList: []string{h.Addr}, InstantiateReplicaId: 1, RaftAddress: h.Addr, AppName: "kvtest", Config: cfg}
+	}
+	// launch shard s1, then give it a second member on an unreachable address: from now on no further change commits
+	set(create(s1))
+	if !report() {
+		run.Count("c18:inconclusive_concurrent_step_1")
+		return
+	}
+	h.dc.HandleMasterRequests(ctx())
+	if !wait(func() bool {
+		ci := info(s1)
+		_, _, ok, err := h.NH.GetLeaderID(s1)
+		return ci != nil && !ci.Pending && ci.ConfigChangeIndex > 0 && ok && err == nil
+	}) {
+		run.Count("c18:inconclusive_concurrent_step_2")
+		return
+	}
+	v := info(s1).ConfigChangeIndex
+	set(&pb.NodeHostRequest{Change: &pb.Request{Type: pb.Request_ADD, ShardId: s1, Members: []uint64{2}, ConfChangeId: v}, RaftAddress: h.Addr, AddressList: []string{"127.0.0.1:1"}})
+	report()
+	h.dc.HandleMasterRequests(ctx())
+	if !wait(func() bool { ci := info(s1); return ci != nil && len(ci.Replicas) == 2 }) {
+		run.Count("c18:inconclusive_concurrent_step_3")
+		return
+	}
+	v2 := info(s1).ConfigChangeIndex
+	// batch A: an add-member that cannot commit (blocks until the local timeout), then the kill of the local replica
+	set(&pb.NodeHostRequest{Change: &pb.Request{Type: pb.Request_ADD, ShardId: s1, Members: []uint64{3}, ConfChangeId: v2}, RaftAddress: h.Addr, AddressList: []string{"127.0.0.1:2"}},
+		&pb.NodeHostRequest{Change: &pb.Request{Type: pb.Request_KILL, ShardId: s1, Members: []uint64{1}}, RaftAddress: h.Addr})
+	report()
+	done := make(chan struct{})
+	go func() {
+		c, cancel := context.WithTimeout(context.Background(), 60*time.Second)
+		defer cancel()
+		h.dc.HandleMasterRequests(c)
+		close(done)
+	}()
+	time.Sleep(400 * time.Millisecond)
+	// batch B arrives while A is being executed
+	set(create(s2), create(s3))
+	report()
+	select {
+	case <-done:
+	case <-time.After(90 * time.Second):
+		run.Count("c18:inconclusive_concurrent_step_4")
+		return
+	}
+	h.dc.HandleMasterRequests(ctx())
+	run.Count("case:scenario_concurrent_delivery")
+	ops := []string{"launch shard 9001", "add member 2 on an unreachable address", "batch A = [add member 3 (blocks), kill replica 1 of 9001] being executed", "batch B = [launch 9002, launch 9003] received meanwhile", "execute again"}
+	if !wait(func() bool { return info(s1) == nil }) {
+		fail("dispatch_once_in_order", "batch-in-flight-disturbed", "a batch received while another one was being executed made the batch in flight lose its kill request (the replica still runs)", ops)
+	} else if h.NH.HasNodeInfo(s1, 1) {
+		fail("kill_erases", "kill-left-data", "the kill request of the batch in flight did not erase the replica's data", ops)
+	}
+	if !wait(func() bool { return info(s2) != nil && info(s3) != nil }) {
+		fail("dispatch_once_in_order", "batch-received-meanwhile-lost", "requests received while another batch was being executed were not executed afterwards", ops)
 	}
 }
